@@ -66,7 +66,7 @@ fn main() {
             "c14" => c14::replay(&line, &mut o),
             "c15" => c15::replay(&line, &mut o),
             "c11" => c11::replay(&line, &mut o),
-            "c01" | "c02" | "c03" | "c04" | "c05" | "c06" | "c07" | "c09" => autprops::replay(&line, &mut o),
+            "c01" | "c02" | "c03" | "c04" | "c05" | "c06" | "c07" | "c08" | "c09" | "c17" => autprops::replay(&line, &mut o),
             "c16" => c16::replay(&line, &mut o),
             _ => panic!("unknown property"),
         }
@@ -77,7 +77,11 @@ fn main() {
             "c14" => c14::run(tier, seed, &mut o),
             "c15" => c15::run(tier, seed, &mut o),
             "c11" => c11::run(tier, seed, &mut o),
-            "c01" | "c02" | "c03" | "c04" | "c05" | "c06" | "c07" | "c09" => autprops::run(&prop, tier, seed, &mut o),
+            "c01" | "c02" | "c03" | "c04" | "c05" | "c06" | "c07" | "c08" | "c09" | "c17" => autprops::run(&prop, tier, seed, &mut o),
+            "c17fp" => {
+                print!("{}", autprops::fingerprints(tier, seed));
+                return;
+            }
             "c16" => c16::run(tier, seed, &mut o),
             _ => {
                 eprintln!("unknown property {}", prop);
